@@ -7,7 +7,7 @@
     encoding "utf-8", short_empty_elements False, writing to a text-mode temporary file, plus the hand-written
     lexical handlers of XMLTransformer exactly as written.  Namespace processing is off (make_parser default),
     so names are raw qnames and xmlns declarations are ordinary attributes. *)
-From CM Require Export Base.Str Base.Dict.
+From CM Require Export Base.Str Base.Dict Base.Types_RegexPipe.
 From Coq Require Import String Ascii.
 
 Definition lit (s : string) : str := map N_of_ascii (list_ascii_of_string s).
@@ -154,10 +154,13 @@ Section Transformers.
   (** ** XMLTransformerPipeline.apply *)
   Section Apply.
     Context {D : Type} (mkdiff : str -> str -> D).      (* create_diff(original.splitlines(True), output.readlines()) *)
+    Context (dempty : D -> bool).                       (* `not diff` *)
+    Definition guard_hits (g : xml_diff_guard) (d : D) : bool :=
+      match g with DiffGuard => dempty d | NoDiffGuard => false end.
     Record xchangeset := { xcs_diff : D; xcs_changes : list xchange }.
     Record xapply_out := { xo_ret : option xchangeset; xo_file : str; xo_failed : bool; xo_unfixed : list (N * N) }.
 
-    Definition xml_apply (step : pevent -> list event * list xchange) (dry_run : bool)
+    Definition xml_apply (g : xml_diff_guard) (step : pevent -> list event * list xchange) (dry_run : bool)
                (original : str) (parse : option (list pevent)) : xapply_out :=
       match parse with
       | None => {| xo_ret := None; xo_file := original; xo_failed := true;
@@ -168,6 +171,9 @@ Section Transformers.
           | [] => {| xo_ret := None; xo_file := original; xo_failed := false; xo_unfixed := [] |}
           | _ =>
               let new_text := universal_newlines (emit_all out) in
+              if guard_hits g (mkdiff original new_text)
+              then {| xo_ret := None; xo_file := original; xo_failed := false; xo_unfixed := [] |}
+              else
               {| xo_ret := Some {| xcs_diff := mkdiff original new_text; xcs_changes := changes |};
                  xo_file := if dry_run then original else new_text;
                  xo_failed := false; xo_unfixed := [] |}
